@@ -4,7 +4,7 @@ SPEC = dict(
     design_ref='DESIGN.md section 3, C04 (and 2.5 the reflector bench)',
     rule=("one case = one random command history on a fresh ReflectServer stepped single-threaded (ServerProcessLoop(0)); 2-6 concurrent sessions "
           "(real MessageIOGateways over socketpairs, 40% with 2 KB socket buffers, joining/leaving/pausing their reading at any point) issue 60 "
-          "(leg mirror_long: 1000) top-level commands: SETDATA (nested paths from a 9-name alphabet + metacharacter names, overwrite, flags "
+          "(leg mirror_long: 1000) top-level commands: SETDATA (1-8 fields, nested paths from a 9-name alphabet + metacharacter names, overwrite, 1/8 of the fields with 2-3 values applied in order, flags "
           "dont-create/dont-overwrite/supersede/add-to-index), REMOVEDATA (literal, wildcard, multi-level, with filter), SETPARAMETERS with 1-2 "
           "SUBSCRIBE: entries (literal / wildcard / absolute paths with host and session clauses, every documented clause form generated as "
           "refwild AST, 45% with a content filter, 35% re-subscribing an existing path with another filter, !MxUp 1..50, !Self, !Enc), "
@@ -37,7 +37,7 @@ SPEC = dict(
                           'subscriber_table_checks': 2000000, 'histories_nontrivial': 3000,
                           'cmd|resubscribe_with_other_filter_while_overlapping': 3000, 'cmd|remove_with_filter': 8000, 'cmd|removeparams_wildcard': 5000,
                           'cmd|batch_nested': 20000, 'cmd|burst_supersede': 3000, 'cmd|insertordered': 10000, 'cmd|reorder': 5000,
-                          'cmd|leave': 4000, 'cmd|join_slow': 4000, 'cmd|setdatatrees': 1000, 'cmd|getdata_query': 3000,
+                          'cmd|set_field_with_several_values': 5000, 'cmd|leave': 4000, 'cmd|join_slow': 4000, 'cmd|setdatatrees': 1000, 'cmd|getdata_query': 3000,
                           'obs_overwrites_same_size': 3000, 'obs_node_left_match_set_while_path_still_subscribed': 3000,
                           'obs_existing_node_entered_match_set': 20000, 'obs_nodes_under_overlapping_subscriptions_with_filter': 100000,
                           'obs_paused_reader_with_2plus_queued_messages': 5000, 'mirror_comparisons_with_small_max_update_items': 15000,
